@@ -393,7 +393,14 @@ func mTruthy(v any) bool {
 	return true
 }
 
+// mOpaque is panicked (and recovered in mmReference) when the reference meets behaviour that
+// neither the properties nor a fixture fix; the case is then discarded.
+type mOpaque struct{ why string }
+
 func mEqual(a, b any) bool {
+	if a == nil && b == nil {
+		panic(mOpaque{"nil compared with nil: Django says equal, pongo2 says different"})
+	}
 	if a == nil || b == nil {
 		return false
 	}
@@ -793,6 +800,10 @@ func mmReference(root []MNode, files map[string][]MNode, globals, ctx Val) (stri
 			if p := recover(); p != nil {
 				if me, ok := p.(*mErr); ok {
 					rerr = me
+					return
+				}
+				if op, ok := p.(mOpaque); ok {
+					rerr = &mErr{"opaque: " + op.why}
 					return
 				}
 				panic(p)
